@@ -43,7 +43,13 @@ def classify(prog, t):
     kinds = [prog["leaves"][i]["kind"] for i in leaf_ids(ent["expr"])]
     plain = len(set(kinds)) > 1
     if plain and kinds.count("exch") >= 2:
-        return "plain-composite-with-two-exchange-moves"
+        # the shipped bookkeeping undoes: insertions only, ONE deletion batch, or a deletion followed by insertions (Props/C03.v,
+        # C03_reject_restores_general); it cannot undo two deletions made one after the other or an insertion followed by a deletion.
+        # Only those trials belong to the known finding; a delete-then-insert trial of the same composite must be restored like any other.
+        acts = [a for a in t.get("acts", []) if a != "none"]
+        if acts.count("del") >= 2 or ("ins" in acts and "del" in acts[acts.index("ins"):]) or not acts:
+            return "plain-composite-with-two-exchange-moves"
+        return "plain-composite:undoable-trial:" + ">".join(acts)
     if prog.get("fixed") and any(prog["leaves"][i]["kind"] == "exch" and any(prog["leaves"][i]["labels"][f] >= 0 for f in prog["fixed"] if f < len(prog["leaves"][i]["labels"]))
                                   for i in leaf_ids(ent["expr"])):
         return "fixed-exchangeable-atom-deleted"
@@ -70,6 +76,8 @@ def run(res: C.Result):
         cases[-1]["designated"] = "plain-composite-with-two-exchange-moves"
         cases.append(progs.gen_program(rng, 5 + 7 * k, ensembles=("gc",), fixed_exchange_particle=True))
         cases[-1]["designated"] = "fixed-exchangeable-atom-deleted"
+    for k in range(8 if quick else 100):
+        cases.append(progs.relocate_program(rng, k))      # delete-then-insert in one trial: undone correctly by the shipped code
     outs = C.run_impl_parallel("c03.py", [{"cases": cases[i::16]} for i in range(16)], timeout=3000)
     results = [None] * len(cases)
     for j, o in enumerate(outs):
